@@ -100,7 +100,7 @@ def cases(draw, max_n=300):
         "seed": draw(st.integers(0, 2**31)),
         "dtype": dtype, "ncol": ncol, "cols": cols, "container": container,
         "fraction": draw(fraction_for(n)),
-        "perm_seed": draw(st.integers(0, 2**31)),
+        "perm_seed": draw(st.integers(0, 2**31)), "swapped": draw(st.integers(0, 2)) == 0,
         "a_pow": draw(st.integers(-3, 6)), "b": draw(st.integers(-1000, 1000)),
         "ga": draw(st.floats(1e-3, 1e3)), "gb": draw(st.floats(-1e3, 1e3)),
     }
@@ -108,6 +108,9 @@ def cases(draw, max_n=300):
 
 def build(case):
     cols = [np.array(c, dtype=case["dtype"]) for c in case["cols"]]
+    if case.get("swapped") and cols[0].dtype.itemsize > 1:
+        # the same numbers in the other byte order (a big-endian file read on a little-endian machine)
+        cols = [c.astype(c.dtype.newbyteorder()) for c in cols]
     if case["ncol"] == 0:
         arr = cols[0]
     else:
